@@ -144,6 +144,8 @@ def run_server(kconfig, sdkconfig, sdkconfig_rename, default_version=MAX_PROTOCO
             break
         try:
             req = json.loads(line)
+            if not isinstance(req, dict):
+                raise JSONDecodeError("A request must be a JSON object", line, 0)
         except JSONDecodeError as e:
             response = {
                 "version": default_version,
@@ -162,7 +164,18 @@ def run_server(kconfig, sdkconfig, sdkconfig_rename, default_version=MAX_PROTOCO
                 "version": default_version,
             }
             error = ["All requests must have a 'version'"]
+        elif not is_supported_version(req["version"]):
+            response = {
+                "version": req["version"] if type(req["version"]) is int else default_version,
+            }
+            error = handle_request(config, req)
         else:
+            error = []
+            for key in ("load", "save"):
+                if key in req and req[key] is not None and not isinstance(req[key], str):
+                    error.append(f"The value of '{key}' must be a file name or null, not {json.dumps(req[key])}")
+                    del req[key]
+
             if req["version"] >= 3:
                 before_defaults = get_sym_default_value_dict(config)
 
@@ -186,7 +199,7 @@ def run_server(kconfig, sdkconfig, sdkconfig_rename, default_version=MAX_PROTOCO
                 else:
                     sdkconfig = req["save"]
 
-            error = handle_request(config, req)
+            error += handle_request(config, req)
 
             after = kconfgen.get_json_values(config)
             after_ranges = get_ranges(config)
@@ -236,13 +249,18 @@ def get_sym_default_value_dict(config: kconfiglib.Kconfig) -> Dict[str, bool]:
     return defaults
 
 
+def is_supported_version(version):
+    # type() instead of isinstance(): the JSON values true/false are not protocol versions
+    return type(version) is int and MIN_PROTOCOL_VERSION <= version <= MAX_PROTOCOL_VERSION
+
+
 def handle_request(config, req):
     if "version" not in req:
         return ["All requests must have a 'version'"]
 
-    if req["version"] < MIN_PROTOCOL_VERSION or req["version"] > MAX_PROTOCOL_VERSION:
+    if not is_supported_version(req["version"]):
         return [
-            f"Unsupported request version {req['version']}. "
+            f"Unsupported request version {json.dumps(req['version'])}. "
             f"Server supports versions {MIN_PROTOCOL_VERSION}-{MAX_PROTOCOL_VERSION}"
         ]
 
@@ -256,11 +274,17 @@ def handle_request(config, req):
             error += [f"Failed to load from {req['load']}: {e}"]
 
     if "set" in req:
-        handle_set(config, error, req["set"])
+        if isinstance(req["set"], dict):
+            handle_set(config, error, req["set"])
+        else:
+            error += ["The value of 'set' must be a dictionary of config symbol names and their new values"]
 
     if "reset" in req:
         if req["version"] >= 3:
-            handle_reset(config, error, req["reset"])
+            if isinstance(req["reset"], list):
+                handle_reset(config, error, req["reset"])
+            else:
+                error += ["The value of 'reset' must be a list of config symbol names and menu IDs"]
         else:
             error += [f"Resetting config symbols is not supported in protocol version {req['version']}"]
 
@@ -281,6 +305,11 @@ def handle_reset(config: kconfiglib.Kconfig, error: List[str], to_reset: List[st
 
     Special name "all" can be used to reset all symbols at once.
     """
+    not_names = [item for item in to_reset if not isinstance(item, str)]
+    if not_names:
+        error.append(f"Items to reset must be config symbol names or menu IDs: {json.dumps(not_names)}")
+        to_reset = [item for item in to_reset if isinstance(item, str)]
+
     # Reset the whole configuration to default values
     if "all" in to_reset:
         if kconfiglib._recursively_perform_action(config.top_node, kconfiglib._restore_default):
